@@ -194,6 +194,9 @@ func (c *Ctx) runDriver() error {
 		in.WriteString(cs.Line)
 		in.WriteByte('\n')
 	}
+	if dump := os.Getenv("GMDUMP_LINES"); dump != "" {
+		_ = os.WriteFile(dump, in.Bytes(), 0o644)
+	}
 	cmd := exec.Command(c.Driver)
 	cmd.Stdin = &in
 	var out bytes.Buffer
